@@ -848,7 +848,13 @@ def rule_derives(ctx):
     if fn is None:
         obs.append(bad('DERIVE-FILTER', 'floor', 'anchor-missing: generate_enum_definitions not found'))
     else:
-        flt = [n for n in walk(fn.body) if n['k'] == 'mcall' and n['method'] == 'filter']
+        # the generator and the private helpers it computes the derive list in
+        fam_ = [fn]
+        for c_ in H.calls_in(fn):
+            for lf_ in ctx.pv.local_fns(c_.get('callee')) or []:
+                if lf_ not in fam_ and not lf_.from_macro and norm_path(lf_.path).startswith('graphql_client_codegen::codegen::enums'):
+                    fam_.append(lf_)
+        flt = [n for f_ in fam_ for n in walk(f_.body) if n['k'] == 'mcall' and n['method'] == 'filter']
         good = False
         for n in flt:
             lits = {x['lit']['v'] for x in walk(n['args'][0]) if x['k'] == 'lit' and x['lit']['lk'] == 'str'}
@@ -861,7 +867,7 @@ def rule_derives(ctx):
         else:
             obs.append(bad('DERIVE-FILTER', 'enums/derive-list', 'the enum derive list is not filtered for Serialize/Deserialize', fn.loc,
                            'conflicting impls (E0119) or a derived (non-string, closed) representation'))
-        tys = [fn.bind_types.get(h, '') for h in fn.bind_types]
+        tys = [f_.bind_types.get(h, '') for f_ in fam_ for h in f_.bind_types] + [n_.get('ty', '') for f_ in fam_ for n_ in walk(f_.body) if n_['k'] == 'mcall' and n_['method'] == 'collect']
         if any('BTreeSet' in t for t in tys):
             obs.append(ok('DERIVE-DEDUP', 'enums/derive-list', 'user derives from both lists are de-duplicated (ordered set)', fn.loc))
         else:
